@@ -5,7 +5,7 @@ from vf.driver import Group, Unit, import_units
 PROPERTY = 'C04'
 LEVEL = 'proof'
 GROUPS, UNITS = {}, []
-_g, _u = import_units('C03', lambda n: re.match(r'NTT_iters_schedule$|INTT_wrapper$|NTT_wrapper@|NTT_noop@|log2$', n))
+_g, _u = import_units('C03', lambda n: re.match(r'NTT_iters_schedule$|NTT_butterfly$|INTT_wrapper$|NTT_wrapper@|NTT_noop@|log2$', n))
 GROUPS.update(_g); UNITS += _u
 
 TRUSTED_BASE = ['units of props/C03 (M2 C-ification, outlined batch data path, ghost monitors)']
